@@ -44,6 +44,12 @@ type part struct {
 	// same-href | spelling-pct | spelling-dot | spelling-dotdot) and whether it stands
 	// right behind the entry it repeats
 	RepeatWay string
+
+	// epub: a declared, readable content document WITHOUT any text (a cover or plate page that
+	// holds an image only, a blank separator page, a body of white space / comments / empty
+	// blocks). NoText names the kind; such a part carries no token (Tok == ""), it is a page
+	// of its own all the same (textless.go).
+	NoText string
 }
 
 // mdoc is the harness's record of what it wrote into one member; it becomes
@@ -68,7 +74,7 @@ type pkg struct {
 	Twins    []twin // near-name members (twins.go)
 
 	slideRels map[string][][3]string // pptx: slide member name -> entries of its relationship part
-	Blank     string                 // epub: member name of a blank page in the spine ("" = none)
+	Flavour   string                 // xlsx/pptx: namespace flavour of the markup (flavour.go), "" = transitional as always
 }
 
 func (p *pkg) add(name string, data string, spec string) {
@@ -103,8 +109,20 @@ func (p *pkg) cidOf(name string) int {
 	return 0
 }
 
-// expected = the declared, readable parts in declared order.
+// expected = the declared, readable parts that carry text (a token), in declared order.
 func (p *pkg) expected() []part {
+	var e []part
+	for _, d := range p.Declared {
+		if d.State == stOK && d.NoText == "" {
+			e = append(e, d)
+		}
+	}
+	return e
+}
+
+// pages = ALL declared, readable parts in declared order: the parts of expected() and the
+// text-less ones (textless.go). Page i of the document is pages()[i].
+func (p *pkg) pages() []part {
 	var e []part
 	for _, d := range p.Declared {
 		if d.State == stOK {
@@ -112,6 +130,23 @@ func (p *pkg) expected() []part {
 		}
 	}
 	return e
+}
+
+// slots maps the index of a part in expected() to its page index (its index in pages()).
+// Without text-less parts it is the identity.
+func (p *pkg) slots() []int {
+	var out []int
+	k := 0
+	for _, d := range p.Declared {
+		if d.State != stOK {
+			continue
+		}
+		if d.NoText == "" {
+			out = append(out, k)
+		}
+		k++
+	}
+	return out
 }
 
 // opLine renders the archive in ZIP order plus the parse table.
